@@ -91,11 +91,19 @@ class AndersonAcceleration:
             self._Fk[:, col] = fk - self._fkm1
             self._Gk[:, col] = gk - self._gkm1
 
-            # Solve least squares problem
-            lstsq_solution = sp.linalg.lstsq(self._Fk[:, 0:mk], fk)
-            gamma_k = lstsq_solution[0]
-            # Do the mixing
-            xkp1 = gk - np.dot(self._Gk[:, 0:mk], gamma_k)
+            if np.linalg.norm(self._Fk[:, col]) <= np.finfo(float).eps * np.linalg.norm(
+                gk
+            ):
+                # The increment repeats the previous one up to the round-off level of
+                # the iterates (stagnated iteration): the least squares problem is
+                # degenerate and mixing would merely amplify round-off errors.
+                xkp1 = gk
+            else:
+                # Solve least squares problem
+                lstsq_solution = sp.linalg.lstsq(self._Fk[:, 0:mk], fk)
+                gamma_k = lstsq_solution[0]
+                # Do the mixing
+                xkp1 = gk - np.dot(self._Gk[:, 0:mk], gamma_k)
         else:
             xkp1 = gk
 
